@@ -93,7 +93,9 @@ func guarded(c *core.Ctx, op string, expectedPanicOK bool, f func() string) {
 // C13 on the real outputs (t >= 0 only: negative timestamps are outside the property).
 func opAll(c *core.Ctx, k calcT, t int64) {
 	op := fmt.Sprintf("all %s %d", k.name, t)
-	if zoneTag != "" {
+	if zoneTrs != "" {
+		op = fmt.Sprintf("zallt %s %d | %s", k.name, t, zoneTrs)
+	} else if zoneTag != "" {
 		op = fmt.Sprintf("zall %s %s %d", zoneTag, k.name, t)
 	}
 	guarded(c, op, false, func() string {
@@ -150,7 +152,11 @@ func opSlot(c *core.Ctx, k calcT, t, interval int64) {
 		s := int64(k.calc.CalcSlot(t, base, interval))
 		if t >= 0 && interval > 0 {
 			if !(s >= 0 && base+s*interval <= t && t < base+(s+1)*interval) {
-				c.Fail("slot-bound/"+k.name, fmt.Sprintf("t=%d familyStart=%d interval=%d slot=%d", t, base, interval, s))
+				key := "slot-bound/" + k.name
+				if zoneTag != "" {
+					key += "@zone" + zoneTag
+				}
+				c.Fail(key, fmt.Sprintf("t=%d familyStart=%d interval=%d slot=%d", t, base, interval, s))
 			}
 			if ts := timeutil.CalcTimestamp(base, int(s), timeutil.Interval(interval)); !(ts <= t && t < ts+interval) {
 				c.Fail("slot-timestamp/"+k.name, fmt.Sprintf("t=%d familyStart=%d interval=%d slot=%d CalcTimestamp=%d", t, base, interval, s, ts))
@@ -171,6 +177,7 @@ func randInterval(r *rand.Rand, k calcT) int64 {
 // (tag = offset in seconds east of UTC, or a named DST witness zone) and oracle keys get a suffix.
 var (
 	zoneTag    string
+	zoneTrs    string // "off0 at1 off1 ...": the zone's transitions (DST pass, op `zallt`)
 	zoneOffMs  int64
 	zoneOracle = true
 )
@@ -277,6 +284,7 @@ func witnesses(c *core.Ctx) {
 		}
 	}
 	dstWitness(c)
+	dstPass(c)
 	unalignedIntervalWitness(c)
 }
 
@@ -889,4 +897,87 @@ func opRollup(c *core.Ctx, r *rand.Rand) {
 		}
 		return fmt.Sprintf("%d %d %d %d %d", tft, ru.IntervalRatio(), base, ts, tslot)
 	})
+}
+
+// ---------------------------------------------------------------- daylight-saving pass
+
+// zoneTransitions scans loc from a few days before year's Jan 1 to mid-February of the next year
+// and returns the offset at the start and every (UTC second, new offset) change (binary search
+// inside the day where the offset changes).
+func zoneTransitions(loc *time.Location, year int) (off0 int, trs [][2]int64) {
+	offAt := func(s int64) int { _, o := time.Unix(s, 0).In(loc).Zone(); return o }
+	from := time.Date(year-1, 12, 20, 0, 0, 0, 0, time.UTC).Unix()
+	to := time.Date(year+1, 2, 15, 0, 0, 0, 0, time.UTC).Unix()
+	off0 = offAt(from)
+	cur := off0
+	for s := from; s < to; s += 86400 {
+		if o := offAt(s + 86400); o != cur {
+			lo, hi := s, s+86400 // offAt(lo) == cur, offAt(hi) != cur
+			for hi-lo > 1 {
+				mid := (lo + hi) / 2
+				if offAt(mid) == cur {
+					lo = mid
+				} else {
+					hi = mid
+				}
+			}
+			cur = offAt(hi)
+			trs = append(trs, [2]int64{hi, int64(cur)})
+		}
+	}
+	return off0, trs
+}
+
+// dstPass judges the segment / family / slot statements of C13 for the day-, month- and year-type
+// calculators with time.Local = a daylight-saving zone (inside this function only): for several
+// years, the days around every offset change (the day before, the transition day, the day after),
+// a fixed set of instants per day. Every observation is also diffed against the zone model built
+// from the zone's transitions (`zallt`). Oracle keys carry the suffix `@dst:<zone>`.
+func dstPass(c *core.Ctx) {
+	defer func() { time.Local = time.UTC; zoneTag, zoneTrs = "", "" }()
+	for _, zn := range []string{"America/New_York", "Australia/Lord_Howe"} {
+		loc, err := time.LoadLocation(zn)
+		if err != nil {
+			c.Branch("dst/tzdata-missing")
+			continue
+		}
+		for _, year := range []int{1987, 2007, 2024, 2031} {
+			off0, trs := zoneTransitions(loc, year)
+			parts := []string{fmt.Sprint(off0)}
+			for _, tr := range trs {
+				parts = append(parts, fmt.Sprint(tr[0]), fmt.Sprint(tr[1]))
+			}
+			time.Local = loc
+			zoneTag, zoneTrs = "dst:"+zn, strings.Join(parts, " ")
+			for _, tr := range trs {
+				at := time.Unix(tr[0], 0).In(loc)
+				if at.Year() != year {
+					continue
+				}
+				c.Branch("dst/transition-day")
+				for dd := -1; dd <= 1; dd++ {
+					d0 := time.Date(at.Year(), at.Month(), at.Day()+dd, 0, 0, 0, 0, loc)
+					d1 := time.Date(at.Year(), at.Month(), at.Day()+dd+1, 0, 0, 0, 0, loc)
+					start, next := d0.UnixMilli(), d1.UnixMilli()
+					if next-start != day {
+						c.Branch(fmt.Sprintf("dst/day-length-%dmin", (next-start)/min))
+					}
+					var inst []int64
+					for off := int64(0); off <= 4*hour; off += 30 * min {
+						inst = append(inst, start+off, start+off+17*min+123)
+					}
+					inst = append(inst, tr[0]*1000-1, tr[0]*1000, tr[0]*1000+1, start+12*hour, next-90*min, next-30*min-1, next-30*min, next-1)
+					for _, t := range inst {
+						if t < start-1 || t > next {
+							continue
+						}
+						for _, k := range calcs {
+							opAll(c, k, t)
+							opSlot(c, k, t, k.intervals[int(t/1000)%len(k.intervals)])
+						}
+					}
+				}
+			}
+		}
+	}
 }
